@@ -53,10 +53,43 @@ fn otlp_for(sig: (bool, bool, bool)) -> &'static emit_otlp::Otlp {
 
 static NEXT_ID: AtomicI64 = AtomicI64::new(1);
 
+/// `(c14mt (sig false TRACES METRICS) THREADS N)`: THREADS threads emit N un-kinded events each at the same time into an
+/// emitter without the logs signal: every one of them is dropped, and counted — the counter moves by exactly
+/// THREADS × N (one per discard, also when discards race).
+fn run_c14mt(args: &[Sexp]) -> Option<String> {
+    let (st, sa) = args[0].as_tagged()?;
+    if st != "sig" || sa.len() != 3 {
+        return None;
+    }
+    let sig = (sa[0].as_bool()?, sa[1].as_bool()?, sa[2].as_bool()?);
+    let (threads, n) = (args[1].as_usize()?, args[2].as_usize()?);
+    if sig.0 || threads == 0 || threads > 16 || n > 200_000 {
+        return None;
+    }
+    let otlp = otlp_for(sig);
+    let before = otlp.metric_source().event_discarded();
+    let barrier = std::sync::Barrier::new(threads);
+    std::thread::scope(|sc| {
+        for _ in 0..threads {
+            sc.spawn(|| {
+                barrier.wait();
+                for _ in 0..n {
+                    otlp.emit(emit::Event::new(emit::Path::new_raw("hotlp::c14mt"), emit::Template::literal("e"), emit::Empty, emit::Empty));
+                }
+            });
+        }
+    });
+    let discarded = otlp.metric_source().event_discarded() - before;
+    Some(format!("discard={}", discarded))
+}
+
 fn run_c14(line: &str) -> String {
     (|| -> Option<String> {
         let s = Sexp::parse(line)?;
         let (tag, args) = s.as_tagged()?;
+        if tag == "c14mt" && args.len() == 3 {
+            return run_c14mt(args);
+        }
         if tag != "c14" || args.len() != 3 {
             return None;
         }
@@ -264,6 +297,10 @@ fn value_variants() -> Vec<(&'static str, Vec<Option<V>>)> {
                 Some(sseq(vec![V::F64(1.5), V::F64(2.5)])),
                 Some(seq(vec![V::I64(1), V::F64(2.0), V::U64(3)])),
                 Some(sseq(vec![V::U128(5), V::I128(-5), V::U64(i64::MAX as u64)])),
+                // running sums that leave i64 (upwards, downwards): still a metric sample, still the metrics signal
+                Some(seq(vec![V::I64(i64::MAX), V::I64(1)])),
+                Some(seq(vec![V::I64(i64::MIN), V::I64(-1), V::I64(5)])),
+                Some(sseq(vec![V::I64(i64::MAX), V::I64(i64::MAX), V::I64(i64::MAX)])),
             ],
         ),
         (
@@ -358,6 +395,14 @@ fn gen_c14(rng: &mut Rng, tier: Tier, n: usize) -> Vec<String> {
     let names: &[Option<bool>] = if tier == Tier::Thorough { &[Some(false), Some(true)] } else { &[None] };
     let reps = std::cmp::max(1, n / (cells * names.len()));
     let mut out = Vec::new();
+    // racing discards first (no network involved)
+    out.push("(c14mt (sig false true false) 8 20000)".to_string());
+    out.push("(c14mt (sig false false false) 4 30000)".to_string());
+    if tier == Tier::Thorough {
+        for _ in 0..6 {
+            out.push(format!("(c14mt (sig false {} {}) {} {})", rng.bool(), rng.bool(), 2 + rng.usize(10), 20_000 + rng.usize(80_000)));
+        }
+    }
     for sig in 0u8..8 {
         for (_, kv) in &kinds {
             for (_, ev) in &extents {
